@@ -78,7 +78,10 @@ def gen_record(rng):
     maybe("pat", lambda: rng.choice(REGEXES), 0.35)
     maybe("fmt", lambda: rng.choice(FORMATS + ["%Y-%Q", "%H:%M:%", "%F %T %!"]), 0.35)
     maybe("which", lambda: rng.choice(VARNAMES), 0.35)
-    maybe("sel", lambda: rng.choice([".n", "(+ .i 1)", ".s", "(size .arr)", ".obj.a", "(concat .s \"!\")", ".", "(first .strs)", "(* .n 2)"]), 0.35)
+    maybe("sel", lambda: rng.choice([".n", "(+ .i 1)", ".s", "(size .arr)", ".obj.a", "(concat .s \"!\")", ".", "(first .strs)", "(* .n 2)",
+                                     # a selection text that parses a further selection text, also taken from the record
+                                     "(parse_selection (default .inner \".n\"))", "(push [] (parse_selection .inner) .i)"]), 0.35)
+    maybe("inner", lambda: rng.choice([".i", ".s", "(size .arr)", "(+ .n 1)", ".b", "(parse_selection \".i\")"]), 0.4)
     return r
 
 
@@ -369,6 +372,8 @@ class Gen:
                 add("entries", lambda g, sc, d: C("entries", g("obj")))
                 add("zip", lambda g, sc, d: C("zip", *[g(self.arr_kind()) for _ in range(r.choice((2, 2, 3, 4)))]) if r.random() < 0.5 else
                     C("cross", *[g(self.arr_kind()) for _ in range(r.choice((2, 2, 3)))]))
+                # many lists: the members of a row stay in the order of the lists (.0 .1 .2 ... .10 .11), whatever their number
+                add("zip", lambda g, sc, d: C(r.choice(("zip", "zip", "cross")), *[("lit", [r.choice((0, 1, "a", None, [2]))] * r.choice((1, 1, 1, 2, 0))) for _ in range(r.choice((10, 11, 12, 13)))]))
                 add('"sort_by"', lambda g, sc, d: C('"sort_by"', ("lit", [{"n": 1, "s": "10"}, {"n": 2, "s": "9"}, {"n": 3, "s": "1e1"}, {"n": 4, "s": "x"}]),
                                                     ("path", 0, (("k", "s"),))))
         if kind in ("obj", "any"):
